@@ -83,6 +83,10 @@ pub fn universes_for(opts: &Opts) -> Vec<String> {
     if let Ok(l) = std::env::var("VERIF_ONLY_UNIVERSE") {
         return vec![l];
     }
+    if ["C01", "C02", "C03", "C06", "C07", "C10", "C12", "C13", "C14", "C18"].contains(&opts.prop.as_str()) {
+        // alignment units above the 64 bytes that the file loaders support: in-memory properties only
+        v.push("wide".to_string());
+    }
     if opts.prop == "C07" {
         // ranges over index types of odd size: see the known finding O14
         v.push("odd".to_string());
